@@ -1288,6 +1288,8 @@ def smoke_C18():
 # ======================================================================================================== C19
 
 RULE_C19 = (
+    'Long scripts (9 000 / 70 000 / 140 000 characters, thorough up to 1.1 M, every line end inside a multi-line token) must '
+    'give identical tokens, split() results and parsestream()/parse() statements as str, StringIO, UTF-8 bytes and TextIOWrapper.  '
     "Library half, case (text, 'lib'): the results of parse (tree as plain data), split and format(reindent=True) "
     '(for stream forms also parsestream and format()) for the str are compared with the results for: bytes + encoding for every encoding of '
     '{utf-8, latin-1, gbk, cp1251, utf-16} that can represent the text, UTF-8 bytes without encoding, '
